@@ -374,6 +374,76 @@ func runC05(w *World, r *Report) {
 		})
 	}
 
+	// ---- the carry never wraps the currency
+	r.rule("carry-increment-guarded", "every currency increment by one (the carry) is immediately guarded: the nearest dominating test of that same field against 2^64-1 has its fail edge leading to an error return, and the field is not written between the test and the increment", 3)
+	for _, spec := range [][2]string{{"Melange", "Supply"}, {"", "Transfer"}} {
+		f := w.fx(r, "spice", spec[0], spec[1])
+		if f == nil {
+			continue
+		}
+		fn := f.fn
+		instrsOf(fn, func(in ssa.Instruction) {
+			st, ok := in.(*ssa.Store)
+			if !ok {
+				return
+			}
+			fa, ok := st.Addr.(*ssa.FieldAddr)
+			if !ok || fieldName(fa.X.Type(), fa.Field) != "Currency" {
+				return
+			}
+			bo, ok := st.Val.(*ssa.BinOp)
+			if !ok || bo.Op != token.ADD {
+				return
+			}
+			if k, isK := intConst(bo.Y); !isK || k != 1 {
+				return
+			}
+			p := pathOf(st.Addr)
+			// guard edges: load(p) == MaxUint64 is FALSE
+			var guardLoads []ssa.Value
+			guards := edgesWhere(fn, func(ft fact) bool {
+				if ft.kind != fNeq {
+					return false
+				}
+				for _, pr := range [][2]ssa.Value{{ft.x, ft.y}, {ft.y, ft.x}} {
+					if c, isC := pr[1].(*ssa.Const); isC && c.Value != nil && c.Value.ExactString() == "18446744073709551615" && pathOf(pr[0]) == p {
+						guardLoads = append(guardLoads, pr[0])
+						return true
+					}
+				}
+				return false
+			})
+			ok2 := false
+			why := "no test of " + p + " against 2^64-1 dominates the increment"
+			for _, ge := range guards {
+				// the guard edge must lead straight to the increment: no store to p on any path from the edge to st,
+				// and the increment's block is reachable only through a guard edge
+				if !mustCross(fn, st.Block(), guards) {
+					continue
+				}
+				dirty := false
+				walkFrom(nil, ge.To(), nil, func(x ssa.Instruction) bool {
+					if x == ssa.Instruction(st) {
+						return true
+					}
+					if s2, isSt := x.(*ssa.Store); isSt && pathOf(s2.Addr) == p && s2 != st {
+						// a store to the field before reaching the increment?
+						if reachable([]*ssa.BasicBlock{s2.Block()}, nil)[st.Block()] {
+							dirty = true
+						}
+					}
+					return false
+				})
+				if dirty {
+					why = "the field is written between its overflow test and the increment (stale test)"
+					continue
+				}
+				ok2 = true
+			}
+			r.check(ok2, "carry-increment-guarded", spec[1]+"/"+p+"+=1", lineOf(w, st), "the carry into "+p+" cannot wrap", why)
+		})
+	}
+
 	// ---- Drain delegates correctly
 	r.rule("drain-delegates", "Drain(amount, sink) is Transfer(amount, receiver, sink)", 1)
 	if f := w.fx(r, "spice", "Melange", "Drain"); f != nil {
